@@ -302,6 +302,8 @@ def TLS(A=1, B=2, C=3):
         "abc-never": [(10, "N", A), (20, "N", B), (30, "N", C)],
         "burst-ab-C": [(10, "N", A), (10, "N", B), (20, "C", None)],
         "C-with-last": [(10, "N", A), (20, "N", B), (20, "C", None)],
+        # first element delivered synchronously inside subscribe() (cold sources only; used by C01)
+        "coldsync:a.b-C": [(None, "N", A), (10, "N", B), (20, "C", None)],
         # non-conforming (rogue sources only)
         "rogue:a-C-b": [(10, "N", A), (20, "C", None), (30, "N", B)],
         "rogue:a-E-b-C": [(10, "N", A), (20, "E", "E"), (30, "N", B), (40, "C", None)],
@@ -317,7 +319,7 @@ class Result:
 
 def run_case(stages: list[str], source_kind: str, timeline, *, arm=None, rec_fault=None, inner_policy: str = "sub",
              dispose: tuple | None = None, alphabet=(1, 2, 3), unrename=None, budget: int = 20000, subscribes=((vt.SUB,),),
-             pass_scheduler: bool = True, horizon: float = vt.HORIZON, shared_ops=None) -> Result:
+             pass_scheduler: bool = True, horizon: float = vt.HORIZON, shared_ops=None, reenter: tuple | None = None) -> Result:
     """Execute one pipeline case on a fresh Env.
 
     stages: catalogue ids applied left to right.  source_kind: cold|hot|rogue.
@@ -327,6 +329,8 @@ def run_case(stages: list[str], source_kind: str, timeline, *, arm=None, rec_fau
       'sub1' subscribe and unsubscribe after the first element, 'none' never subscribe.
     dispose: None | ('at', t, 'first'|'last') | ('in_on_next', k) | ('after_subscribe',)
     subscribes: tuple of (time,) — the *same observable object* is subscribed at each time (C04).
+    reenter: (callback kind 'N'|'E'|'C', k, emit kind) — from inside the subscriber's k-th callback of that kind the (hot,
+      still live) main source synchronously emits one more notification (re-entrancy from user code).
     """
     from reactivex import Observable
 
@@ -337,6 +341,7 @@ def run_case(stages: list[str], source_kind: str, timeline, *, arm=None, rec_fau
     R.kits = []
     R.inner = []
     R.outers = []
+    R.reentered = False
     first_sub = min(s[0] for s in subscribes)
 
     def build():
@@ -388,6 +393,26 @@ def run_case(stages: list[str], source_kind: str, timeline, *, arm=None, rec_fau
                 rec.dispose()
 
         rec.on_next_hook = hook
+        if reenter is not None and source_kind == "hot":
+            fired = [False]
+
+            def poke(kind, fired=fired):
+                if not fired[0]:
+                    fired[0] = True
+                    R.reentered = True
+                    R.main.emit_now(reenter[2], "RE" if reenter[2] == "N" else ("RE" if reenter[2] == "E" else None))
+
+            if reenter[0] == "N":
+                prev = rec.on_next_hook
+
+                def hook2(value, k, prev=prev, poke=poke):
+                    prev(value, k)
+                    if k == reenter[1]:
+                        poke("N")
+
+                rec.on_next_hook = hook2
+            else:
+                rec.on_term_hook = lambda kind, poke=poke: poke(kind) if kind == reenter[0] else None
 
         def go(rec=rec):
             rec.subscription = get_obs().subscribe(rec, scheduler=env.sched if pass_scheduler else None)
